@@ -69,8 +69,8 @@ def warnings(run):
     _discharge(run, SC.warnings_contracts(run, Source()), "warnings")
 
 
-def init_state(run):
-    pass
+def init_state(run, tag="C04"):
+    _discharge(run, [o for o in (SC.init_contracts(run, Source()) or []) if o.get("kind") in ("canary", "loop", "callsite") or tag in o.get("tags", [])], "initial vectors")
 
 
 def registry(run, tag):
@@ -99,3 +99,7 @@ def batt_life(run, tag):
 
 def graph_helpers(run, tag):
     _discharge(run, [o for o in (SC.graph_helpers(run, Source()) or []) if o.get("kind") == "canary" or tag in o.get("tags", [])], "graph helper wrappers")
+
+
+def parents_childs(run, tag):
+    _discharge(run, [o for o in (SC.parents_childs(run, Source()) or []) if o.get("kind") in ("canary", "loop") or tag in o.get("tags", [])], "_get_parents/_get_childs")
